@@ -454,6 +454,14 @@ theorem getline_counters_var (fuel : Nat) (x : String) (s s1 : St) (r : String)
     simp [evalLoc, touchLoc, bind, M.bind, pure, M.pure, h, writeLoc, hw]
   · simp [hm.1, hm.2.1, hm.2.2.1, hm.2.2.2.1, hglob]
 
+/-- opening a file for reading touches no counter and no record state -/
+theorem openReader_frame (name content : String) (s s1 : St) (r : String) (h : openReader name content s = .got r s1) :
+    s1.nr = s.nr ∧ s1.fnr = s.fnr ∧ s1.rec0 = s.rec0 ∧ s1.fields = s.fields ∧ s1.fs = s.fs := by
+  unfold openReader at h
+  split at h
+  · simp at h
+  · simp at h; obtain ⟨_, h2⟩ := h; subst h2; simp
+
 /-- reading a record of a named file touches no counter and no record state -/
 theorem readFile_frame (name : String) (s s1 : St) (r : String) (h : readFile name s = .got r s1) :
     s1.nr = s.nr ∧ s1.fnr = s.fnr ∧ s1.rec0 = s.rec0 ∧ s1.fields = s.fields ∧ s1.fs = s.fs := by
@@ -462,10 +470,12 @@ theorem readFile_frame (name : String) (s s1 : St) (r : String) (h : readFile na
   · simp at h
   · simp at h; obtain ⟨_, h2⟩ := h; subst h2; simp
   · split at h
-    · simp at h
+    · exact openReader_frame _ _ _ _ _ h
     · split at h
       · simp at h
-      · simp at h; obtain ⟨_, h2⟩ := h; subst h2; simp
+      · split at h
+        · simp at h
+        · exact openReader_frame _ _ _ _ _ h
 
 /-- **getline_counters (`getline < file`).**  `$0` and the fields are replaced; NR and FNR do not change. -/
 theorem getline_counters_file (fuel : Nat) (fe : Expr) (s s0 s1 : St) (fv : Val) (r : String) (fl : List String)
@@ -622,5 +632,454 @@ theorem run_deterministic (fuel : Nat) (p : Prog) (files : List File) (stdin : S
     (o1 o2 : Except Err Outcome)
     (h1 : runWith fuel p files stdin extra = o1) (h2 : runWith fuel p files stdin extra = o2) : o1 = o2 := by
   rw [← h1, ← h2]
+
+/-! ## input pipes (`cmd | getline`): the remaining two rows of the getline table -/
+
+/-- reading a record from an input pipe touches no counter and no record state -/
+theorem readCmd_frame (cmd : String) (s s1 : St) (r : String) (h : readCmd cmd s = .got r s1) :
+    s1.nr = s.nr ∧ s1.fnr = s.fnr ∧ s1.rec0 = s.rec0 ∧ s1.fields = s.fields ∧ s1.fs = s.fs := by
+  unfold readCmd at h
+  split at h
+  · simp at h
+  · simp at h; obtain ⟨_, h2⟩ := h; subst h2; simp
+  · split at h
+    · simp at h
+    · exact openReader_frame _ _ _ _ _ h
+    · split at h
+      · exact openReader_frame _ _ _ _ _ h
+      · split at h
+        · simp at h
+        · split at h
+          · simp at h
+          · exact openReader_frame _ _ _ _ _ h
+
+/-- **getline_counters (`cmd | getline`).**  `$0` and the fields (NF) are replaced by the next record of the command's
+output; NR and FNR do not change.  (POSIX tabulates NR as set by this form; gawk 5.2, mawk 1.3.4 and hawk all leave
+it alone — `awk 'BEGIN { "echo a" | getline; print NR }'` prints 0 in all three — and the property is agreement with
+the reference awks, which the exhaustive getline-table cases of the check confirm on every run.) -/
+theorem getline_counters_cmd (fuel : Nat) (ce : Expr) (s s0 s1 : St) (cv : Val) (r : String) (fl : List String)
+    (hf : eval fuel ce s = .ok cv s0) (h : readCmd (toStr cv) s0 = .got r s1)
+    (hs : splitBy s1.fs r = some fl) :
+    eval (fuel + 1) (.getlineCmd none ce) s =
+      .ok (.num 1) { s1 with rec0 := r, rec0num := looksNumeric r, fields := fl.map mkInput } ∧
+    s1.nr = s0.nr ∧ s1.fnr = s0.fnr := by
+  have hm := readCmd_frame _ _ _ _ h
+  refine ⟨?_, hm.1, hm.2.1⟩
+  rw [eval]
+  simp [bind, M.bind, hf, h, setRecord, setRecordAs, hs, pure, M.pure]
+
+/-- **getline_counters (`cmd | getline var`).**  Only `var` changes: NR, FNR, `$0` and the fields stay. -/
+theorem getline_counters_var_cmd (fuel : Nat) (ce : Expr) (x : String) (s s0 s1 : St) (cv : Val) (r : String)
+    (hf : eval (fuel + 1) ce s = .ok cv s0) (h : readCmd (toStr cv) s0 = .got r s1)
+    (hl : s1.locals.lookup x = none) (hs : ∀ v, writeSpecial x v = none)
+    (hu : unsupportedSpecials.contains x = false)
+    (harr : ∀ id, s1.globals.lookup x ≠ some (.arr id)) :
+    eval (fuel + 2) (.getlineCmd (some (.var x)) ce) s =
+      .ok (.num 1) { s1 with globals := setAssoc x (.val (mkInput r)) s1.globals } ∧
+    s1.nr = s0.nr ∧ s1.fnr = s0.fnr ∧ s1.rec0 = s0.rec0 ∧ s1.fields = s0.fields := by
+  have hm := readCmd_frame _ _ _ _ h
+  have hw := writeVar_global x (mkInput r) s1 hl (hs _) hu harr
+  refine ⟨?_, hm.1, hm.2.1, hm.2.2.1, hm.2.2.2.1⟩
+  rw [eval]
+  simp only [bind, M.bind, hf]
+  simp [evalLoc, touchLoc, bind, M.bind, pure, M.pure, h, writeLoc, hw]
+
+/-- at end of file every redirected form returns 0 and changes neither the record nor a counter -/
+theorem getline_eof_changes_nothing (fuel : Nat) (fe : Expr) (s s0 s1 : St) (fv : Val)
+    (hf : eval fuel fe s = .ok fv s0) :
+    (readFile (toStr fv) s0 = .eof s1 → eval (fuel + 1) (.getline none (some fe)) s = .ok (.num 0) s1) ∧
+    (readCmd (toStr fv) s0 = .eof s1 → eval (fuel + 1) (.getlineCmd none fe) s = .ok (.num 0) s1) ∧
+    (readFile (toStr fv) s0 = .eof s1 ∨ readCmd (toStr fv) s0 = .eof s1 →
+      s1.nr = s0.nr ∧ s1.fnr = s0.fnr ∧ s1.rec0 = s0.rec0 ∧ s1.fields = s0.fields ∧ s1.globals = s0.globals) := by
+  refine ⟨?_, ?_, ?_⟩
+  · intro h; rw [eval]; simp [bind, M.bind, hf, h]
+  · intro h; rw [eval]; simp [bind, M.bind, hf, h]
+  · have ho : ∀ key content (t : St), openReader key content s0 = .eof t →
+        t.nr = s0.nr ∧ t.fnr = s0.fnr ∧ t.rec0 = s0.rec0 ∧ t.fields = s0.fields ∧ t.globals = s0.globals := by
+      intro key content t h
+      unfold openReader at h
+      split at h
+      · simp at h; subst h; simp
+      · simp at h
+    rintro (h | h)
+    · unfold readFile at h
+      split at h
+      · simp at h; subst h; simp
+      · simp at h
+      · split at h
+        · exact ho _ _ _ h
+        · split at h
+          · simp at h
+          · split at h
+            · simp at h
+            · exact ho _ _ _ h
+    · unfold readCmd at h
+      split at h
+      · simp at h; subst h; simp
+      · simp at h
+      · split at h
+        · simp at h
+        · exact ho _ _ _ h
+        · split at h
+          · exact ho _ _ _ h
+          · split at h
+            · simp at h
+            · split at h
+              · simp at h
+              · exact ho _ _ _ h
+
+/-- non-vacuity: `"echo a b" | getline` delivers the record `a b`; a second read is at end of file -/
+example : readCmd "echo a b" {} = .got "a b" { readers := [("echo a b", [])] } ∧
+    readCmd "echo a b" { readers := [("echo a b", [])] } = .eof { readers := [("echo a b", [])] } := by
+  constructor
+  · rfl
+  · simp [readCmd, List.lookup]
+
+/-! ## strnum comparison rules -/
+
+/-- POSIX comparison rules for numeric strings, for all strings and numbers: a numeric string from input compares
+NUMERICALLY with a number, with another numeric string and with an uninitialised value, but as a STRING with a
+string constant; a string constant compares as a string even with a number (the number is converted). -/
+theorem strnum_comparison_rules (s t : String) (i x y : Int) (hx : strToNum s = some x) (hy : strToNum t = some y) :
+    cmpVals (.strnum s) (.num i) = some (cmpInt x i) ∧
+    cmpVals (.num i) (.strnum s) = some (cmpInt i x) ∧
+    cmpVals (.strnum s) (.strnum t) = some (cmpInt x y) ∧
+    cmpVals (.strnum s) .uninit = some (cmpInt x 0) ∧
+    cmpVals (.strnum s) (.str t) = some (cmpChars s.toList t.toList) ∧
+    cmpVals (.str s) (.strnum t) = some (cmpChars s.toList t.toList) ∧
+    cmpVals (.str s) (.num i) = some (cmpChars s.toList (intToStr i).toList) ∧
+    cmpVals (.str s) (.str t) = some (cmpChars s.toList t.toList) := by
+  simp [cmpVals, isNumeric, toNum, toStr, hx, hy]
+
+/-- non-vacuity: the field `10` is greater than the number 9 but, as a string, smaller than the constant "9" -/
+example : cmpVals (.strnum "10") (.num 9) = some .gt ∧ cmpVals (.strnum "10") (.str "9") = some .lt := by decide
+
+theorem cmpChars_swap (a b : List Char) : cmpChars b a = (cmpChars a b).swap := by
+  induction a generalizing b with
+  | nil => cases b <;> simp [cmpChars, Ordering.swap]
+  | cons c as ih =>
+    cases b with
+    | nil => simp [cmpChars, Ordering.swap]
+    | cons d bs =>
+      simp only [cmpChars]
+      by_cases h1 : c.toNat < d.toNat
+      · have h2 : ¬ d.toNat < c.toNat := by omega
+        simp [h1, h2, Ordering.swap]
+      · by_cases h2 : d.toNat < c.toNat
+        · simp [h1, h2, Ordering.swap]
+        · simp [h1, h2, ih]
+
+theorem cmpInt_swap (x y : Int) : cmpInt y x = (cmpInt x y).swap := by
+  unfold cmpInt
+  by_cases h1 : x < y
+  · have h2 : ¬ y < x := by omega
+    simp [h1, h2, Ordering.swap]
+  · by_cases h2 : y < x
+    · simp [h1, h2, Ordering.swap]
+    · simp [h1, h2, Ordering.swap]
+
+/-- comparison is antisymmetric for ALL pairs of values: swapping the operands swaps the outcome (so `a < b` iff
+`b > a`, `a == b` iff `b == a`), whichever of the numeric / string rules applies -/
+theorem cmpVals_swap (a b : Val) : cmpVals b a = (cmpVals a b).map Ordering.swap := by
+  unfold cmpVals
+  by_cases h : (isNumeric a && isNumeric b) = true
+  · have h' : (isNumeric b && isNumeric a) = true := by simpa [Bool.and_comm] using h
+    simp only [h, h', if_true]
+    cases toNum a <;> cases toNum b <;> simp
+    exact cmpInt_swap _ _
+  · have hf : (isNumeric a && isNumeric b) = false := by simpa using h
+    have hf' : (isNumeric b && isNumeric a) = false := by rw [Bool.and_comm]; exact hf
+    simp only [hf, hf', Bool.false_eq_true, if_false, Option.map_some]
+    rw [cmpChars_swap (toStr a).toList (toStr b).toList]
+
+/-- the six operators are three complementary pairs on every outcome, and exactly one of `<`, `==`, `>` holds -/
+theorem cmpHolds_complement (o : Ordering) :
+    cmpHolds .ge o = !cmpHolds .lt o ∧ cmpHolds .le o = !cmpHolds .gt o ∧ cmpHolds .ne o = !cmpHolds .eq o ∧
+    ((cmpHolds .lt o && !cmpHolds .eq o && !cmpHolds .gt o) || (!cmpHolds .lt o && cmpHolds .eq o && !cmpHolds .gt o) ||
+     (!cmpHolds .lt o && !cmpHolds .eq o && cmpHolds .gt o)) = true := by
+  cases o <;> decide
+
+/-! ## output streams: ordering across redirections, reading back -/
+
+theorem lookup_setAssoc_ne {β} (x k : String) (c : β) (l : List (String × β)) (h : (k == x) = false) :
+    (setAssoc x c l).lookup k = l.lookup k := by
+  induction l with
+  | nil => simp [setAssoc, List.lookup_cons, h]
+  | cons a t ih =>
+    obtain ⟨k', b⟩ := a
+    simp only [setAssoc]
+    split
+    · next heq =>
+      have : k' = x := by simpa using heq
+      subst this
+      simp [List.lookup_cons, h]
+    · simp only [List.lookup_cons]
+      cases hk : (k == k') <;> simp [ih]
+
+/-- a successful write in append mode (`>>`, or any write to a stream that is already open) appends the text to the
+file's content and touches neither standard output nor any other file -/
+theorem emitStream_append_ok (key name text : String) (s s' : St)
+    (h : emitStream true key name text s = .ok () s') :
+    s'.outFiles = setAssoc name ((s.outFiles.lookup name).getD "" ++ text) s.outFiles ∧ s'.out = s.out := by
+  unfold emitStream at h
+  repeat' split at h
+  all_goals first
+    | contradiction
+    | (simp at h; done)
+    | (simp at h; subst h; simp)
+
+/-- a write to a stream that is already open appends — `>` and `>>` are the same operation there (the file is
+truncated only when `>` OPENS it) -/
+theorem emitStream_open_same (key name text : String) (s : St) (ho : s.openOuts.contains key = true) :
+    emitStream false key name text s = emitStream true key name text s := by
+  have ho' : key ∈ s.openOuts := by simpa using ho
+  unfold emitStream
+  simp [ho']
+
+/-- `>` on a file that is not open (first use, or after close) discards what the file held; `>>` keeps it -/
+theorem emitStream_opening (key name text : String) (s s1 s2 : St) (ho : s.openOuts.contains key = false)
+    (h1 : emitStream false key name text s = .ok () s1) (h2 : emitStream true key name text s = .ok () s2) :
+    s1.outFiles.lookup name = some text ∧
+    s2.outFiles.lookup name = some ((s.outFiles.lookup name).getD "" ++ text) ∧
+    s1.openOuts = key :: s.openOuts ∧ s2.openOuts = key :: s.openOuts := by
+  unfold emitStream at h1 h2
+  simp only [ho, Bool.false_eq_true, if_false] at h1 h2
+  repeat' split at h1
+  all_goals first
+    | contradiction
+    | (simp at h1; done)
+    | skip
+  all_goals repeat' split at h2
+  all_goals first
+    | contradiction
+    | (simp at h2; done)
+    | (simp at h1 h2; subst h1; subst h2; simp [lookup_setAssoc])
+
+/-- a sequence of `print … >> file` statements (texts already formatted), files in any interleaving -/
+def emitSeq : List (String × String) → M Unit
+  | [] => pure ()
+  | (n, t) :: rest => do emitTo true n t; emitSeq rest
+
+def concatTexts : List String → String
+  | [] => ""
+  | t :: rest => t ++ concatTexts rest
+
+/-- **output ordering across redirections.**  For every sequence of writes to any number of files in any
+interleaving: afterwards each file holds its previous content followed by exactly the texts written to IT, in program
+order — writes to other files in between never reorder, drop or duplicate anything — and standard output is
+untouched. -/
+theorem output_order_across_redirections (ops : List (String × String)) (s s' : St)
+    (h : emitSeq ops s = .ok () s') (name : String) :
+    (s'.outFiles.lookup name).getD "" =
+      (s.outFiles.lookup name).getD "" ++ concatTexts ((ops.filter (fun o => o.1 == name)).map (·.2)) ∧
+    s'.out = s.out := by
+  induction ops generalizing s with
+  | nil =>
+    simp [emitSeq, pure, M.pure] at h
+    subst h
+    simp [concatTexts]
+  | cons o rest ih =>
+    obtain ⟨n, t⟩ := o
+    simp only [emitSeq, bind, M.bind] at h
+    split at h
+    · next u s1 h1 =>
+      have ha := emitStream_append_ok n n t s s1 (by simpa [emitTo] using h1)
+      have hr := ih s1 h
+      refine ⟨?_, hr.2.trans ha.2⟩
+      rw [hr.1, ha.1]
+      cases hn : (n == name) with
+      | true =>
+        have : n = name := by simpa using hn
+        subst this
+        simp [List.filter_cons, concatTexts, lookup_setAssoc, String.append_assoc]
+      | false =>
+        have hn' : (name == n) = false := by
+          cases hq : (name == n) with
+          | false => rfl
+          | true => simp at hq; subst hq; simp at hn
+        simp [List.filter_cons, hn, lookup_setAssoc_ne _ _ _ _ hn']
+    · simp at h
+    · simp at h
+
+/-- non-vacuity: `print "1" >> "a"; print "2" >> "b"; print "3" >> "a"` succeeds and leaves `13` in a, `2` in b -/
+example : ∃ s', emitSeq [("a", "1"), ("b", "2"), ("a", "3")] {} = .ok () s' ∧
+    (s'.outFiles.lookup "a").getD "" = "13" ∧ (s'.outFiles.lookup "b").getD "" = "2" := by
+  have h : ∃ s', emitSeq [("a", "1"), ("b", "2"), ("a", "3")] {} = .ok () s' := ⟨_, rfl⟩
+  obtain ⟨s', h⟩ := h
+  refine ⟨s', h, ?_, ?_⟩
+  · have := (output_order_across_redirections _ _ _ h "a").1
+    simpa [concatTexts] using this
+  · have := (output_order_across_redirections _ _ _ h "b").1
+    simpa [concatTexts] using this
+
+/-- `close` of an open output stream or reader returns 0 and the stream is gone afterwards (so the next `>`
+truncates again and the next `getline <` starts from the beginning); `close` of anything else returns -1 and
+changes nothing -/
+theorem close_spec (key : String) (s : St) :
+    (s.openOuts.contains key = true ∨ (s.readers.lookup key).isSome = true →
+      ∃ s', closeStream key s = .ok (.num 0) s' ∧ s'.openOuts.contains key = false ∧ s'.outFiles = s.outFiles ∧
+        s'.out = s.out) ∧
+    (s.openOuts.contains key = false → (s.readers.lookup key).isSome = false →
+      closeStream key s = .ok (.num (-1)) s) := by
+  constructor
+  · intro h
+    have hc : (s.openOuts.contains key || (s.readers.lookup key).isSome) = true := by
+      rcases h with h | h <;> simp only [h, Bool.true_or, Bool.or_true]
+    refine ⟨{ s with openOuts := s.openOuts.filter (· != key), readers := delAssoc key s.readers }, ?_, ?_, rfl, rfl⟩
+    · unfold closeStream
+      rw [if_pos hc]
+    · simp [List.mem_filter]
+  · intro h1 h2
+    have hc : ¬ (s.openOuts.contains key || (s.readers.lookup key).isSome) = true := by
+      simp only [h1, h2, Bool.or_false]; exact Bool.false_ne_true
+    unfold closeStream
+    rw [if_neg hc]
+
+/-- **reading back.**  A file the program wrote (and that is not an input file) can be read back with
+`getline < name` exactly when no open output stream — `>`/`>>` on the file or a `| "cat > name"` pipe — still writes
+it: the reader then starts at the first record of precisely the content the model holds for the file.  While a writer
+is open the model refuses (`busy` = outside the profile) instead of guessing what buffering lets a reader see. -/
+theorem readback_spec (name content : String) (s : St)
+    (hr : s.readers.lookup name = none) (hf : s.fsys.find? (fun f => f.name == name) = none)
+    (hc : s.outFiles.lookup name = some content) :
+    (s.openOuts.any (writesTo name) = false → readFile name s = openReader name content s) ∧
+    (s.openOuts.any (writesTo name) = true → readFile name s = .busy) := by
+  constructor <;> intro hw <;> simp [readFile, hr, hf, hc, hw]
+
+/-- non-vacuity: `print "x" > "o"; close("o"); getline < "o"` reads the record `x` back -/
+example : ∃ s1 s2, emitTo false "o" "x\n" {} = .ok () s1 ∧ closeStream "o" s1 = .ok (.num 0) s2 ∧
+    (∃ s3, readFile "o" s2 = .got "x" s3) ∧ readFile "o" s1 = .busy := by
+  refine ⟨_, _, rfl, rfl, ⟨_, rfl⟩, rfl⟩
+
+/-- a pipe to `cat > name` is a stream of its own (keyed by the command text) on the file `name`: opening it
+truncates the file, later writes append, and the same file cannot be written through a second stream at the same
+time (outside the profile) -/
+theorem pipe_stream_spec (name text : String) (s : St) (hv : validOutName name = true) :
+    pipeTarget ("cat > " ++ name) = some name ∧
+    emitPipe ("cat > " ++ name) text s = emitStream false ("cat > " ++ name) name text s := by
+  have hp : pipeTarget ("cat > " ++ name) = some name := by
+    unfold pipeTarget
+    have : ("cat > " ++ name).toList = "cat > ".toList ++ name.toList := by simp
+    simp [this, hv]
+  exact ⟨hp, by simp [emitPipe, hp]⟩
+
+/-- redirected output never reaches standard output and never touches the record, the counters or a variable:
+whatever branch a successful write to a file or pipe stream takes, only the stream table and the file contents change -/
+theorem emitStream_frame (ap : Bool) (key name text : String) (s s' : St)
+    (h : emitStream ap key name text s = .ok () s') :
+    s'.out = s.out ∧ s'.nr = s.nr ∧ s'.fnr = s.fnr ∧ s'.rec0 = s.rec0 ∧ s'.fields = s.fields ∧
+    s'.globals = s.globals ∧ s'.readers = s.readers := by
+  unfold emitStream at h
+  repeat' split at h
+  all_goals first
+    | contradiction
+    | (simp at h; done)
+    | (simp at h; subst h; simp)
+
+/-- the key spaces of the stream table do not collide: a valid output FILE name (letters, digits, `.`, `_`) is never
+read as a pipe command, so `print > "f"` and `print | "cat > f"` are always two different streams (the model then
+refuses the second one while the first is open — `two output streams on one file`) -/
+theorem stream_keys_disjoint (n : String) (h : validOutName n = true) :
+    pipeTarget n = none ∧ cmdSource n = none := by
+  have hall : ∀ c ∈ n.toList, (c.isAlphanum || c == '.' || c == '_') = true := by
+    simp only [validOutName, Bool.and_eq_true, List.all_eq_true] at h
+    exact h.2
+  have hsp : ¬ ' ' ∈ n.toList := fun hm => by
+    have := hall _ hm
+    revert this; decide
+  have hpre : ∀ pre : List Char, ' ' ∈ pre → pre.isPrefixOf n.toList = false := by
+    intro pre hm
+    cases hp : pre.isPrefixOf n.toList with
+    | false => rfl
+    | true =>
+      obtain ⟨t, ht⟩ := List.isPrefixOf_iff_prefix.mp hp
+      exact absurd (by rw [← ht]; exact List.mem_append_left _ hm) hsp
+  constructor
+  · unfold pipeTarget
+    simp only [hpre "cat > ".toList (by decide), Bool.false_eq_true, if_false]
+  · unfold cmdSource
+    simp only [hpre "cat ".toList (by decide), hpre "echo ".toList (by decide), Bool.false_eq_true, if_false]
+
+example : validOutName "o2.out" = true ∧ pipeTarget "cat > o2.out" = some "o2.out" := by decide
+
+/-! ## record / field coherence -/
+
+/-- `$0` is the fields joined with OFS -/
+def Rebuilt (s : St) : Prop := s.rec0 = joinWith s.ofs (s.fields.map toStr)
+
+theorem map_toStr_mkInput (fl : List String) : (fl.map mkInput).map toStr = fl := by
+  induction fl with
+  | nil => rfl
+  | cons a t ih => simp [toStr_mkInput, ih]
+
+/-- **record/field coherence after each of the three writes that touch the record**, for all states and values:
+* `$i = v` (i ≥ 1): NF grows to at least i (never shrinks), `$i` holds the value, and `$0` IS the fields joined with
+  the current OFS;
+* `NF = n`: exactly n fields remain (padded with empty strings or truncated) and `$0` is rebuilt the same way;
+* `$0 = r` (also every getline form that sets `$0`): `$0` is r verbatim and the fields are exactly the split of r
+  with the current FS — no rebuild;
+and NF always reads as the number of fields.
+Partial: stated per write operation; not lifted to an invariant over arbitrary statement sequences, because between a
+`$0 = r` (split with the FS of that moment) and the next field write the program may change FS or OFS, after which
+neither `fields = split $0` nor `$0 = join fields` is supposed to hold (POSIX: the new FS applies to the next record). -/
+theorem record_field_coherence_partial (s s' : St) :
+    (∀ i v, 1 ≤ i → setField i v s = .ok () s' →
+        Rebuilt s' ∧ s'.fields.length = max s.fields.length i ∧ s'.fields[i - 1]? = some (fieldVal v) ∧ s'.ofs = s.ofs) ∧
+    (∀ n, setNF n s = .ok () s' → Rebuilt s' ∧ (s'.fields.length : Int) = n) ∧
+    (∀ num r, setRecordAs num r s = .ok () s' →
+        s'.rec0 = r ∧ splitBy s.fs r = some (s'.fields.map toStr) ∧ s'.fs = s.fs) ∧
+    readSpecial "NF" s = some (.num s.fields.length) := by
+  refine ⟨?_, ?_, ?_, ?_⟩
+  · intro i v hi h
+    have h0 : (i == 0) = false := by
+      cases hq : (i == 0) with
+      | false => rfl
+      | true => simp at hq; omega
+    unfold setField at h
+    simp only [h0, Bool.false_eq_true, if_false] at h
+    split at h
+    · simp at h
+    · simp only [Res.ok.injEq, true_and] at h
+      subst h
+      by_cases hl : s.fields.length < i
+      · simp [Rebuilt, rebuild, hl]
+        constructor
+        · omega
+        · have : i - 1 < (s.fields ++ List.replicate (i - s.fields.length) (Val.str "")).length := by
+            simp; omega
+          simp [List.getElem?_set_self this]
+      · simp [Rebuilt, rebuild, hl]
+        constructor
+        · omega
+        · have : i - 1 < s.fields.length := by omega
+          simp [List.getElem?_set_self this]
+  · intro n h
+    unfold setNF at h
+    split at h
+    · simp at h
+    · next hn =>
+      simp only [Res.ok.injEq, true_and] at h
+      subst h
+      have hn' : 0 ≤ n := by
+        simp only [Bool.or_eq_true, decide_eq_true_eq, not_or] at hn; omega
+      by_cases hl : s.fields.length < n.toNat
+      · simp [Rebuilt, rebuild, hl]; omega
+      · simp [Rebuilt, rebuild, hl]; omega
+  · intro num r h
+    unfold setRecordAs at h
+    split at h
+    · simp at h
+    · next fl hfl =>
+      simp only [Res.ok.injEq, true_and] at h
+      subst h
+      refine ⟨rfl, ?_, rfl⟩
+      show splitBy s.fs r = some ((fl.map mkInput).map toStr)
+      rw [map_toStr_mkInput]; exact hfl
+  · simp [readSpecial]
+
+/-- non-vacuity: `$3 = "c"` on the record `a b` gives NF = 3 and `$0 = "a b c"` -/
+example : ∃ s', setField 3 (.str "c") { rec0 := "a b", fields := [.str "a", .str "b"] } = .ok () s' ∧
+    s'.rec0 = "a b c" ∧ s'.fields.length = 3 := by
+  refine ⟨_, rfl, by decide, by decide⟩
 
 end Hawk.Awk.C02
